@@ -301,6 +301,35 @@ def r6_sentence(facts, rep):
                facts.fn("eval::eval").site())
 
 
+def r7_index_options(facts, rep):
+    rep.rule("C16-R7", "the ranking the findability argument relies on (BM25 with field-length norms over positional n-gram terms): "
+                       "every call that configures a tantivy text field in the crate is one of the frozen table - the tokenizer name, "
+                       "WithFreqsAndPositions, stored, defaults otherwise; an additional option (e.g. switching the field norms off, "
+                       "another record option) changes which of several matching facts wins and is reported")
+    allowed = {
+        "<tantivy::schema::TextFieldIndexing as std::default::Default>::default", "tantivy::schema::TextFieldIndexing::set_tokenizer",
+        "tantivy::schema::TextFieldIndexing::set_index_option", "<tantivy::schema::TextOptions as std::default::Default>::default",
+        "tantivy::schema::TextOptions::set_indexing_options", "tantivy::schema::TextOptions::set_stored",
+    }
+    sites = census(facts, lambda n: ("tantivy::schema::TextFieldIndexing" in n or "tantivy::schema::TextOptions" in n) and "::fmt" not in n)
+    for b, bid, t, sp, name in sites:
+        rep.ob("C16-R7", "option:%s" % name.rsplit("::", 1)[-1], name in allowed, "%s is called in %s" % (name, b.path), b.site(sp))
+    rep.floor("C16-R7", "text-field option calls", len(sites), 4)
+    for b, bid, t, sp, name in sites:
+        if name.endswith("set_index_option"):
+            ls = flow.slice_back(b, t["args"][1], through_agg=True)
+            kinds = {l[1] for l in ls if l[0] == "agg"}
+            vi = [a for a in (t["args"][1],) if a["k"] == "const"]
+            txt = repr(t["args"][1])
+            okk = "WithFreqsAndPositions" in txt or any("WithFreqsAndPositions" in str(k) for k in kinds)
+            if not okk:
+                # the operand is a unit variant constant: find its definition
+                for blk, i, st in b.stmts():
+                    if st["rv"]["k"] == "aggregate" and "IndexRecordOption" in st["rv"]["kind"].get("path", ""):
+                        okk = st["rv"]["kind"].get("variant") == "WithFreqsAndPositions"
+            rep.ob("C16-R7", "record-option", okk, "the name field is indexed with %s" % ("WithFreqsAndPositions" if okk else "another record option"), b.site(sp))
+
+
 def run(fx, rep, tier):
     rep.assume("tantivy ranks a document that contains all query terms above documents that lack some (not decided: which "
                "document wins the ranking)")
@@ -318,3 +347,4 @@ def run(fx, rep, tier):
     r4_distinguishable(facts, rep)
     r5_typability(facts, rep)
     r6_sentence(facts, rep)
+    r7_index_options(facts, rep)
